@@ -576,6 +576,11 @@ func (k Keeper) BorrowAsset(ctx sdk.Context, addr string, lendID, pairID uint64,
 	if AmountIn.Denom != cAsset.Denom {
 		return types.ErrBadOfferCoinType
 	}
+	// the collateral is priced below with the lend position's asset, while the cTokens taken (and
+	// the liquidation of the position) are those of the pair's asset in: the two must be the same
+	if pair.AssetIn != lendPos.AssetID {
+		return types.ErrInvalidAsset
+	}
 
 	minUSDVal, _ := sdk.NewDecFromStr(types.DollarOneValue)
 	loanValue, err := k.Market.CalcAssetPrice(ctx, pair.AssetOut, loan.Amount)
